@@ -18,7 +18,30 @@ use std::collections::BTreeMap;
 use std::fmt::Debug;
 
 /// serde_json's four entry points and the library's own decoding helpers (Json / JsonPretty interchange)
-pub const CHANNELS: [&str; 8] = ["str", "slice", "reader", "value", "json_slice", "json_reader", "json_tree", "jsonpretty_reader"];
+pub const CHANNELS: [&str; 10] = ["str", "slice", "reader", "value", "json_slice", "json_reader", "json_tree", "jsonpretty_reader",
+    // readers that hand the text out in small pieces (a pipe, a socket)
+    "reader_pieces", "json_reader_pieces"];
+
+/// a reader that returns at most `step` bytes per call (short reads long before the end)
+struct Pieces {
+    data: Vec<u8>,
+    pos: usize,
+    step: usize,
+}
+
+impl std::io::Read for Pieces {
+    fn read(&mut self, buf: &mut [u8]) -> std::io::Result<usize> {
+        let n = self.step.min(buf.len()).min(self.data.len() - self.pos);
+        buf[..n].copy_from_slice(&self.data[self.pos..self.pos + n]);
+        self.pos += n;
+        Ok(n)
+    }
+}
+
+fn pieces(text: &str) -> Pieces {
+    let step = [1usize, 7, 100][text.len() % 3];
+    Pieces { data: text.as_bytes().to_vec(), pos: 0, step }
+}
 /// three spellings of the same document and three damaged texts that every channel must reject alike
 pub const SPELLINGS: [&str; 11] = ["plain", "ws", "uescape", "trailing_garbage", "concatenated", "truncated",
     // padding that is NOT JSON white space (form feed, vertical tab, no-break space, byte order mark, NUL)
@@ -37,6 +60,8 @@ pub fn parse_via<T: DeserializeOwned>(text: &str, channel: &str) -> Result<Resul
         "json_slice" => <in_toto::interchange::Json as in_toto::interchange::DataInterchange>::from_slice::<T>(text.as_bytes()).map_err(|e| e.to_string()),
         "json_reader" => <in_toto::interchange::Json as in_toto::interchange::DataInterchange>::from_reader::<_, T>(std::io::Cursor::new(text.as_bytes().to_vec())).map_err(|e| e.to_string()),
         "jsonpretty_reader" => <in_toto::interchange::JsonPretty as in_toto::interchange::DataInterchange>::from_reader::<_, T>(std::io::Cursor::new(text.as_bytes().to_vec())).map_err(|e| e.to_string()),
+        "reader_pieces" => serde_json::from_reader::<_, T>(pieces(text)).map_err(|e| e.to_string()),
+        "json_reader_pieces" => <in_toto::interchange::Json as in_toto::interchange::DataInterchange>::from_reader::<_, T>(pieces(text)).map_err(|e| e.to_string()),
         "json_tree" => {
             let v: Value = serde_json::from_str(text).map_err(|e| format!("not json: {e}"))?;
             <in_toto::interchange::Json as in_toto::interchange::DataInterchange>::deserialize::<T>(&v).map_err(|e| e.to_string())
@@ -465,7 +490,15 @@ pub fn build_link(d: &Value, rng: &mut impl rand::Rng) -> MetadataWrapper {
     }
     if let Some(r) = d["reserved"].as_str() {
         if r != "none" {
-            byp = byp.set_other_field(r.to_string(), "7".to_string());
+            // through the single-entry setter or, every other time, through the bulk setter
+            if rng.gen_bool(0.5) {
+                byp = byp.set_other_field(r.to_string(), "7".to_string());
+            } else {
+                let mut m = BTreeMap::new();
+                m.insert(r.to_string(), "7".to_string());
+                m.insert("another".to_string(), "x".to_string());
+                byp = byp.set_other_fields(m);
+            }
         }
     }
     MetadataWrapper::Link(b.byproducts(byp).build().unwrap())
@@ -667,7 +700,7 @@ pub fn pred_doc_nest(fields: &[String], mat: &str, ts: &str, nest: &str) -> Valu
                 if mat == "map" {
                     json!({"src/a": {"sha256": "11".repeat(32)}})
                 } else {
-                    json!([{"uri": "git+https://example.com/r", "digest": {"sha1": "abc"}}, {}])
+                    json!([{"uri": "git+https://example.com/r", "digest": {"sha1": "aBc0D9", "sha256": "ABCDEF"}}, {}])
                 }
             }
             "env" => json!({"A": "b"}),
@@ -689,7 +722,7 @@ pub fn pred_doc_nest(fields: &[String], mat: &str, ts: &str, nest: &str) -> Valu
                 m
             }
             "buildType" => json!("https://example.com/type"),
-            "invocation" => json!({"configSource": {"uri": "git+https://example.com/r", "digest": {"sha1": "abc"}, "entryPoint": "b"}, "parameters": "p"}),
+            "invocation" => json!({"configSource": {"uri": "git+https://example.com/r", "digest": {"sha1": "Ab0dEF"}, "entryPoint": "b"}, "parameters": "p"}),
             "buildConfig" => json!("cfg"),
             _ => json!(null),
         };
@@ -752,10 +785,14 @@ pub fn run_pred(scn: &Value) -> Value {
         res["version"] = json!(ver);
         res["judge_ok"] = json!(matches!(&judged, Ok(Ok(v)) if pred_version_name(v) == ver));
         // canonical form parses back to an equal value
-        let back = tr.to_bytes().ok().and_then(|b| serde_json::from_slice::<PredicateWrapper>(&b).ok());
-        res["rt_ok"] = json!(back.as_ref() == Some(&p));
-        let (v, t, dd) = round_trip(&p);
-        res["rt2_ok"] = json!(v && t);
+        let canon = tr.to_bytes().ok();
+        let back = canon.as_ref().and_then(|b| serde_json::from_slice::<PredicateWrapper>(b).ok());
+        // the canonical form parses back to an equal value and is reproduced from it byte for byte
+        let canon2 = back.clone().and_then(|b| b.into_trait().to_bytes().ok());
+        res["rt_ok"] = json!(back.as_ref() == Some(&p) && canon.is_some() && canon == canon2);
+        // (the plain serde text of a predicate holds unordered maps: only the VALUE has to survive it)
+        let (v, _t, dd) = round_trip(&p);
+        res["rt2_ok"] = json!(v);
         if let Some(x) = dd {
             res["detail"] = json!(x);
         }
@@ -797,8 +834,8 @@ fn typed_pred<T: DeserializeOwned + Serialize + PartialEq + Debug>(_ctor: fn(T) 
     let (agree, detail, parsed) = channels::<T>(text);
     match parsed {
         Some(p) => {
-            let (v, t, d) = round_trip(&p);
-            (agree, detail, v && t, d, true)
+            let (v, _t, d) = round_trip(&p);
+            (agree, detail, v, if v { None } else { d }, true)
         }
         None => (agree, detail, true, None, false),
     }
